@@ -839,8 +839,16 @@ class Walker:
         self.assume = {}
         self.modset = None
         self.on_term = None  # callback(bb, term, getter, path) before a terminator is executed
+        self.split_bool_returns = True
 
     def run(self, start_bb=0):
+        self._run(start_bb)
+        self.paths_split = list(self.paths)  # boolean results spelled out as true / false per path (decision tables)
+        if self.split_bool_returns and start_bb == 0:
+            self.paths = fold_bool_paths(self.paths)
+        return self.paths
+
+    def _run(self, start_bb=0):
         env = {}
         for i in range(1, self.body.argc + 1):
             env[i] = ("arg", i)
@@ -943,10 +951,33 @@ class Walker:
                 continue
             if k == "return":
                 path.ret = st["env"].get(0, ("uninit", 0))
+                if st["subst"]:
+                    path.ret = substitute(path.ret, st["subst"])
                 hv = st["heap"]
                 path.end = "return"
                 path.env = st["env"]
                 path.heap = hv
+                rv = path.ret
+                if self.split_bool_returns and self.body.parent is None and strip_lt(self.body.locals[0]["ty"]) == "bool" and isinstance(rv, tuple) and rv not in (TRUE, FALSE) and rv[0] not in ("uninit", "const"):
+                    # a boolean function answers true or false: `return e` is `if e { true } else { false }`
+                    neg = False
+                    atom = rv
+                    while isinstance(atom, tuple) and atom[0] == "not":
+                        atom = atom[1]
+                        neg = not neg
+                    kn = st["known"].get(atom)
+                    outs = [kn] if kn in (True, False) else [True, False]
+                    for o in outs:
+                        p2 = Path()
+                        p2.guards = list(path.guards) + ([(atom, o)] if kn not in (True, False) else [])
+                        p2.effects = list(path.effects)
+                        p2.blocks = list(path.blocks)
+                        p2.ret = TRUE if (o != neg) else FALSE
+                        p2.end = "return"
+                        p2.env = st["env"]
+                        p2.heap = hv
+                        self.paths.append(p2)
+                    return
                 self.paths.append(path)
                 return
             if k in ("unreachable", "resume", "terminate", "other", "tailcall"):
@@ -1338,6 +1369,42 @@ class Walker:
             p2.effects = list(path.effects)
             p2.blocks = list(path.blocks)
             self._go(b2, st2, p2, visited)
+
+
+def fold_bool_paths(paths):
+    """Canonical form of boolean results: two paths that differ only in the outcome of their last test and answer
+    true / false are one path that answers the test itself (`if e { true } else { false }` is `e`)."""
+    paths = list(paths)
+    changed = True
+    while changed:
+        changed = False
+        index = {}
+        for i, p in enumerate(paths):
+            if p.end != "return" or p.ret not in (TRUE, FALSE) or not p.guards:
+                continue
+            a, o = p.guards[-1]
+            if o not in (True, False):
+                continue
+            key = (tuple(p.guards[:-1]), a, tuple((e[0], e[1], e[2]) if e[0] == "call" else e[:3] for e in p.effects))
+            if key in index:
+                j = index[key]
+                q = paths[j]
+                if q.guards[-1][1] is (not o) and q.ret != p.ret:
+                    pos = p if o else q  # the path on which the test holds
+                    m = Path()
+                    m.guards = list(p.guards[:-1])
+                    m.effects = list(p.effects)
+                    m.blocks = list(p.blocks)
+                    m.end = "return"
+                    m.env, m.heap = p.env, p.heap
+                    m.ret = a if pos.ret == TRUE else mk_not(a)
+                    paths[j] = m
+                    del paths[i]
+                    changed = True
+                    break
+            else:
+                index[key] = i
+    return paths
 
 
 def _mentions_place(e, place):
